@@ -1112,7 +1112,10 @@ def run(run):
                 'non-integer types x property/method/parameter (scalar/array) on a mock connection (CIM objects or compiled '
                 'MOF, WBEMConnection or WBEMServer); tovalues() probed at every value of the type +-3 for 8-bit types '
                 '(16-bit: exhaustive for half of the cases in the thorough tier), else at type limits, every entry end +-1 '
-                'and random points; non-trivial = at least 2 ValueMap entries; distinct = distinct (kind,type,arrays,default)')
+                'and random points; plus sequences of 3..6 mappings built in ONE process (same ValueMap array with open ends at '
+                'the array border on elements of different integer types in random order, other arrays, other Values), each '
+                'judged independently of the history; non-trivial = at least 2 ValueMap entries; distinct = distinct '
+                '(kind,type,arrays,default)')
     run.assumptions += [
         'model budget for _values_tuple = length+1 frames (proved sufficient); CPython grants what is left of its recursion '
         'limit: chains of ~1000 consecutive open ranges raise RecursionError (known finding C20-KF3, probed every run)',
@@ -1132,6 +1135,7 @@ def run(run):
     answers = common.run_driver(PROP, [model_request(c) for c in cases])
     for case, (real, side, gc), ans, st in zip(cases, reals, answers, statss):
         check_case(run, case, real, side, ans, st)
+    sequence_stream(run, 400 if run.thorough else 80)
     long_chain_probes(run)
     intlit_check(run)
     run.exhaustive = False
@@ -1157,6 +1161,104 @@ def long_chain_probes(run):
     for c in (chain_case(1100, True), chain_case(1100, False)):
         real, side = real_eval(c)
         check_case(run, c, real, side, None, ['style:chain-1100'])
+
+
+# ----------------------------------------------------------------------------- sequences in one process
+
+def seq_member(rng, typ, vmap, values, kind, thorough):
+    lo, hi = INT_TYPES[typ]
+    pts = set([lo, hi, lo - 1, hi + 1, 0, 1, -1, lo + 1, hi - 1])
+    for e in vmap:
+        for part in e.split('..'):
+            n_ = dsp_int(part)
+            if n_ is not None:
+                pts.update([n_ - 1, n_, n_ + 1])
+    for _ in range(6):
+        pts.add(rng.randint(lo, hi))
+    scan = None
+    if hi - lo < 300:
+        scan = [lo - 3, hi + 3]
+        pts = set(p for p in pts if not (lo - 3 <= p <= hi + 3))
+    elif hi - lo < 70000 and thorough and rng.random() < 0.2:
+        scan = [lo - 1, hi + 1]
+        pts = set(p for p in pts if not (lo - 1 <= p <= hi + 1))
+    want = {'property': ['P'], 'method': ['M'], 'parameter': ['M', 'A']}[kind]
+    return {'kind': kind, 'typ': typ, 'is_array': False, 'values': list(values), 'valuemap': list(vmap), 'vd': None,
+            'values_null': False, 'valuemap_null': False, 'server': False, 'ns_none': False, 'pass_vd_none': False,
+            'via': 'objects', 'scan': scan, 'vs': sorted(pts), 'strs': list(dict.fromkeys(values))[:8],
+            'lookup': {'cls': 'ok', 'names': want}, 'args': [], 'tbargs': []}
+
+
+def gen_sequence(rng, thorough):
+    """3..6 ValueMapping objects built one after the other in ONE process: the same ValueMap array (open ends at the
+    first / last position, so that the type limits matter) on elements of different integer types in random order,
+    mixed with other arrays on the same types, the same array with other Values, and exact repetitions"""
+    def arr():
+        a = rng.randint(1, 60)
+        b = a + rng.randint(2, 40)
+        mid = []
+        if rng.random() < 0.7:
+            mid.append(str(a + 1) if rng.random() < 0.5 else '%d..%d' % (a + 1, b - 1))
+        if rng.random() < 0.3:
+            mid.insert(rng.randint(0, len(mid)), '..')
+        k = rng.random()
+        first = ['..%d' % a] if k < 0.8 else ['%d' % a]
+        last = ['%d..' % b] if k > 0.15 else ['%d' % b]
+        return first + mid + last
+    base = arr()
+    other = arr()
+    types = list(INT_TYPES)
+    rng.shuffle(types)
+    n = rng.randint(3, 6)
+    seq = []
+    for k in range(n):
+        r = rng.random()
+        vmap = base if r < 0.7 else other
+        typ = types[k % len(types)] if rng.random() < 0.8 else rng.choice(types)
+        values = ['s%d_%d' % (k if rng.random() < 0.5 else 0, i) for i in range(len(vmap))]
+        seq.append(seq_member(rng, typ, vmap, values, rng.choice(['property', 'method', 'parameter']), thorough))
+    return seq
+
+
+def _work_seq(seq):
+    """all members in this process, in order"""
+    out = []
+    for c in seq:
+        real, side = real_eval(c)
+        out.append((real, side, c.get('getclass')))
+    return out
+
+
+def sequence_stream(run, n):
+    import c20 as _self
+    seqs = [gen_sequence(run.rng, run.thorough) for _ in range(n)]
+    results = common.pmap(_self._work_seq, seqs, chunksize=2)
+    flat = [c for seq in seqs for c in seq]
+    for seq, res in zip(seqs, results):
+        for c, (_, _, gc) in zip(seq, res):
+            c['getclass'] = gc
+    answers = common.run_driver(PROP, [model_request(c) for c in flat])
+    it = iter(answers)
+    for seq, res in zip(seqs, results):
+        types_seen = []
+        for k, (c, (real, side, gc)) in enumerate(zip(seq, res)):
+            ans = next(it)
+            sub = common.Run(PROP, run.tier, run.seed)
+            check_case(sub, c, real, side, ans, ['style:sequence-member'])
+            run.evaluations += 1
+            for key, v in sub.distribution.items():
+                run.count(key, v)
+            # a failing member is reported with its whole history: the sequence up to and including it
+            hist = {'sequence': [dict(x) for x in seq[:k + 1]]}
+            for d in sub.disagreements:
+                run.disagree(hist, d['model'], d['impl'], d['what'] + ' (member %d of a sequence in one process)' % k)
+            for v in sub.violations:
+                sig = dict(v['sig'])
+                if any(t != c['typ'] for t in types_seen) or k > 0:
+                    sig['after_other_mappings_in_process'] = True
+                run.violate(sig, hist, v['observed'])
+            types_seen.append(c['typ'])
+        run.count('sequences')
 
 
 def oracle_only(run):
@@ -1195,6 +1297,20 @@ def replay(payload):
         ok = real == want
         return ok, 'property C20 %s: _integerValue_to_int(%r) = %r, DSP0004 value = %r' % (
             'holds' if ok else 'FAILS', s, real, want)
+    if 'sequence' in case:
+        # rebuild every mapping of the history in this process, in order; the property must hold for each of them
+        for k, c in enumerate(case['sequence']):
+            real, side = real_eval(c)
+            if 'setup_failed' not in real:
+                oracle(r, c, real)
+            if r.violations:
+                v = r.violations[0]
+                return False, ('property C20 FAILS on mapping %d of this sequence (%s %s, ValueMap %s) built after %s in the '
+                               'same process: %s\nobserved: %s') % (
+                    k, c['kind'], c['typ'], json.dumps(c['valuemap']),
+                    json.dumps([(x['typ'], x['valuemap']) for x in case['sequence'][:k]]),
+                    json.dumps(v['sig']), json.dumps(v['observed'], default=str)[:600])
+        return True, 'property C20 holds on every mapping of this sequence (%d mappings built in one process)' % len(case['sequence'])
     real, side = real_eval(case)
     for s in side:
         r.violate({'kind': 'call_form', 'what': s}, case, s)
